@@ -4,6 +4,7 @@ import (
 	"bytes"
 	"encoding/json"
 	"fmt"
+	"math"
 	"reflect"
 	"strings"
 
@@ -23,6 +24,45 @@ var batchRegistry = map[string]rp.Batch{}
 
 func main() { rp.Main(registry, batchRegistry) }
 
+// fieldRec is one field of the packet as the specification sees it: the library's name of the field, the value
+// (RtmpPacket!Fields) and its layout.
+type fieldRec struct {
+	F string          `json:"f"`
+	V fieldVal        `json:"v"`
+	E json.RawMessage `json:"e"`
+}
+
+type fieldVal struct {
+	rtmpx.Val
+	Hi uint32 `json:"hi"`
+	Lo uint32 `json:"lo"`
+}
+
+// UnmarshalJSON: "v" of a u16/u8 value is a number, of a bool value a boolean.
+func (f *fieldVal) UnmarshalJSON(b []byte) error {
+	var probe struct {
+		A  string          `json:"a"`
+		V  json.RawMessage `json:"v"`
+		Hi uint32          `json:"hi"`
+		Lo uint32          `json:"lo"`
+	}
+	if err := json.Unmarshal(b, &probe); err != nil {
+		return err
+	}
+	switch probe.A {
+	case "u16", "u8":
+		f.A = probe.A
+		return json.Unmarshal(probe.V, &f.Lo)
+	case "u32":
+		f.A, f.Hi, f.Lo = probe.A, probe.Hi, probe.Lo
+		return nil
+	case "absent":
+		f.A = probe.A
+		return nil
+	}
+	return json.Unmarshal(b, &f.Val)
+}
+
 type packetCase struct {
 	P       rtmpx.Pkt       `json:"p"`
 	Enc     json.RawMessage `json:"enc"`
@@ -30,6 +70,7 @@ type packetCase struct {
 	Mtype   int             `json:"mtype"`
 	Pending string          `json:"pending"`
 	Kind    string          `json:"kind"`
+	Fields  []fieldRec      `json:"fields"`
 }
 
 func typeName(p interface{}) string {
@@ -51,6 +92,184 @@ func request(name string, tid []int) rtmp.Packet {
 	return nil
 }
 
+// blank is RtmpPacket!Target(k, "zero"): a packet of the kind's Go type in which nothing is set (the zero value; the
+// connect packets with the object their decoder fills in place, there is no other way to unmarshal into one).
+func blank(k string) rtmp.Packet {
+	switch k {
+	case "connect":
+		v := &rtmp.ConnectAppPacket{}
+		v.CommandObject = amf0.NewObject()
+		return v
+	case "connectRes":
+		v := &rtmp.ConnectAppResPacket{}
+		v.CommandObject = amf0.NewObject()
+		return v
+	case "createStream":
+		return &rtmp.CreateStreamPacket{}
+	case "createStreamRes":
+		return &rtmp.CreateStreamResPacket{}
+	case "publish":
+		return &rtmp.PublishPacket{}
+	case "play":
+		return &rtmp.PlayPacket{}
+	case "call":
+		return &rtmp.CallPacket{}
+	case "scs":
+		return &rtmp.SetChunkSize{}
+	case "winack":
+		return &rtmp.WindowAcknowledgementSize{}
+	case "peerbw":
+		return &rtmp.SetPeerBandwidth{}
+	case "uc":
+		return &rtmp.UserControl{}
+	}
+	panic("unknown packet kind " + k)
+}
+
+// checkField compares one field of a decoded packet with the specification's value.
+func checkField(fv reflect.Value, f fieldRec, seed int) error {
+	isNil := func() bool {
+		switch fv.Kind() {
+		case reflect.Interface, reflect.Ptr:
+			return fv.IsNil()
+		}
+		return false
+	}
+	switch f.V.A {
+	case "absent":
+		switch fv.Kind() {
+		case reflect.Interface, reflect.Ptr:
+			if !fv.IsNil() {
+				b, _ := fv.Interface().(amf0.Amf0).MarshalBinary()
+				return fmt.Errorf("holds a value (% x), nothing was sent for it", clip(b))
+			}
+		case reflect.Int32, reflect.Int, reflect.Int64:
+			if fv.Int() != 0 {
+				return fmt.Errorf("= %d, nothing was sent for it", fv.Int())
+			}
+		default:
+			rp.Bug("field %s: absent value for a %v", f.F, fv.Type())
+		}
+		return nil
+	case "u32", "u16", "u8":
+		want := uint64(f.V.Hi<<16 | f.V.Lo)
+		var got uint64
+		switch fv.Kind() {
+		case reflect.Uint8, reflect.Uint16, reflect.Uint32, reflect.Uint64, reflect.Uint:
+			got = fv.Uint()
+		case reflect.Int32:
+			got = uint64(uint32(int32(fv.Int())))
+		default:
+			rp.Bug("field %s: number for a %v", f.F, fv.Type())
+		}
+		if got != want {
+			return fmt.Errorf("= %d (%#x), sent %d (%#x)", got, got, want, want)
+		}
+		return nil
+	}
+	// AMF0 values
+	switch x := fv.Interface().(type) {
+	case amf0.String:
+		if f.V.A != "str" && f.V.A != "strf" {
+			rp.Bug("field %s: %s for a string", f.F, f.V.A)
+		}
+		if want := f.V.Str(seed); string(x) != want {
+			return fmt.Errorf("= %s, sent %s", quote(string(x)), quote(want))
+		}
+		return nil
+	case amf0.Number:
+		if f.V.A != "num" {
+			rp.Bug("field %s: %s for a number", f.F, f.V.A)
+		}
+		if want := rtmpx.NumOf(f.V.B); math.Float64bits(float64(x)) != math.Float64bits(want) {
+			return fmt.Errorf("= %v, sent %v", float64(x), want)
+		}
+		return nil
+	}
+	if isNil() {
+		return fmt.Errorf("holds nothing, sent a value of kind %s", f.V.A)
+	}
+	a, ok := fv.Interface().(amf0.Amf0)
+	if !ok {
+		rp.Bug("field %s of type %v is not an AMF0 value", f.F, fv.Type())
+	}
+	l, err := ld.Parse(f.E)
+	if err != nil {
+		panic(err)
+	}
+	want := l.Must(seed)
+	got, err := a.MarshalBinary()
+	if err != nil {
+		return fmt.Errorf("does not marshal: %v", err)
+	}
+	if !bytes.Equal(got, want) {
+		return fmt.Errorf("holds a different value than was sent (%s value): %s", f.V.A, rp.FirstDiff(got, want))
+	}
+	if a.Size() != len(want) {
+		return fmt.Errorf("Size() = %d, the value occupies %d bytes", a.Size(), len(want))
+	}
+	return nil
+}
+
+func clip(b []byte) []byte {
+	if len(b) > 16 {
+		return b[:16]
+	}
+	return b
+}
+
+func quote(s string) string {
+	if len(s) > 24 {
+		return fmt.Sprintf("%q... (%d bytes)", s[:24], len(s))
+	}
+	return fmt.Sprintf("%q", s)
+}
+
+// checkFields compares every field of a decoded packet with the specification's values.
+func checkFields(pkt rtmp.Packet, fields []fieldRec, seed int) error {
+	v := reflect.ValueOf(pkt).Elem()
+	for _, f := range fields {
+		fv := v.FieldByName(f.F)
+		if !fv.IsValid() {
+			rp.Bug("%T has no field %s", pkt, f.F)
+		}
+		if err := checkField(fv, f, seed); err != nil {
+			return fmt.Errorf("field %s %v", f.F, err)
+		}
+	}
+	return nil
+}
+
+// decoded checks what the property says about a packet decoded from payload want: equal field values, Size() is the
+// number of bytes it was decoded from, re-marshalling gives the same payload.
+func decoded(cs *packetCase, how string, pkt rtmp.Packet, want []byte, seed int) error {
+	if err := checkFields(pkt, cs.Fields, seed); err != nil {
+		return fmt.Errorf("%s, %s: %v", cs.P.K, how, err)
+	}
+	if pkt.Size() != len(want) {
+		return fmt.Errorf("%s, %s: Size() of the decoded packet = %d, the payload has %d bytes", cs.P.K, how, pkt.Size(), len(want))
+	}
+	again, err := pkt.MarshalBinary()
+	if err != nil {
+		return fmt.Errorf("%s, %s: the decoded packet does not marshal: %v", cs.P.K, how, err)
+	}
+	if !bytes.Equal(again, want) {
+		return fmt.Errorf("%s, %s: the decoded packet re-marshals differently: %s", cs.P.K, how, rp.FirstDiff(again, want))
+	}
+	return nil
+}
+
+// deviationOf names the deviation of RtmpPacket a failure looks like, if any.
+func deviationOf(cs *packetCase, seed int) string {
+	if n := len(cs.Fields); n > 3 && cs.Mtype == 20 {
+		last := cs.Fields[n-1]
+		if (last.V.A == "str" || last.V.A == "strf") && last.V.Str(seed) == "" {
+			return "C03/empty-is-absent"
+		}
+	}
+	return ""
+}
+
 func init() {
 	registry["packets"] = func(c *rp.Ctx, i int, raw json.RawMessage) rp.Result {
 		var cs packetCase
@@ -65,6 +284,14 @@ func init() {
 		if len(want) != cs.Size {
 			rp.Bug("specification size %d but layout has %d bytes", cs.Size, len(want))
 		}
+		if len(cs.Fields) == 0 {
+			rp.Bug("case without fields")
+		}
+		failed := func(err error) rp.Result {
+			r := rp.Fail(i, "%v", err)
+			r.Deviation = deviationOf(&cs, c.Seed)
+			return r
+		}
 
 		// (1) codec: marshal = the specification's layout, Size() = its length
 		pkt := cs.P.Build(c.Seed)
@@ -73,64 +300,81 @@ func init() {
 			return rp.Fail(i, "%s: marshal failed: %v", cs.P.K, err)
 		}
 		if !bytes.Equal(got, want) {
-			return rp.Fail(i, "%s: marshalled bytes differ from the specification's layout: %s", cs.P.K, rp.FirstDiff(got, want))
+			return failed(fmt.Errorf("%s: marshalled bytes differ from the specification's layout: %s", cs.P.K, rp.FirstDiff(got, want)))
 		}
 		if pkt.Size() != cs.Size {
-			return rp.Fail(i, "%s: Size() = %d but %d bytes are marshalled", cs.P.K, pkt.Size(), cs.Size)
+			return failed(fmt.Errorf("%s: Size() = %d but %d bytes are marshalled", cs.P.K, pkt.Size(), cs.Size))
 		}
 		if int(pkt.Type()) != cs.Mtype {
 			return rp.Fail(i, "%s: message type %d, want %d", cs.P.K, pkt.Type(), cs.Mtype)
 		}
-		// (2) unmarshal into a fresh packet: equal field values, re-marshal reproduces the bytes
-		fresh := cs.P.Fresh()
-		if err := fresh.UnmarshalBinary(want); err != nil {
-			return rp.Fail(i, "%s: unmarshal of its own encoding failed: %v", cs.P.K, err)
+		if err := checkFields(pkt, cs.Fields, c.Seed); err != nil {
+			rp.Bug("%s: the packet built for the case does not hold the specification's values: %v", cs.P.K, err)
 		}
-		again, err := fresh.MarshalBinary()
-		if err != nil || !bytes.Equal(again, want) {
-			return rp.Fail(i, "%s: re-marshal after unmarshal differs: %v %s", cs.P.K, err, rp.FirstDiff(again, want))
-		}
-		if fresh.Size() != cs.Size {
-			return rp.Fail(i, "%s: Size() after unmarshal = %d, want %d", cs.P.K, fresh.Size(), cs.Size)
-		}
-		if err := sameFields(pkt, fresh); err != nil {
-			return rp.Fail(i, "%s: field values after unmarshal differ: %v", cs.P.K, err)
+		// (2) unmarshal (RtmpCodec!Unmarshal) into the packet the library's constructor makes and into a blank one:
+		// the specification's field values, whatever the packet held before
+		for _, t := range []struct {
+			how string
+			pkt rtmp.Packet
+		}{{"unmarshalled into the constructor's packet", cs.P.Fresh()}, {"unmarshalled into a blank packet", blank(cs.P.K)}} {
+			if err := t.pkt.UnmarshalBinary(want); err != nil {
+				return failed(fmt.Errorf("%s, %s: unmarshal of its own encoding failed: %v", cs.P.K, t.how, err))
+			}
+			if err := decoded(&cs, t.how, t.pkt, want, c.Seed); err != nil {
+				return failed(err)
+			}
+			if err := sameFields(pkt, t.pkt); err != nil {
+				return failed(fmt.Errorf("%s, %s: field values differ from the sender's: %v", cs.P.K, t.how, err))
+			}
 		}
 
-		// (3) wire: written by one endpoint, decoded by the peer as the type the protocol defines
-		a, b := transport.NewPair()
-		pa, pb := rtmp.NewProtocol(a), rtmp.NewProtocol(b)
-		if req := request(cs.Pending, cs.P.Tid); req != nil {
-			if err := pb.WritePacket(req, 0); err != nil {
-				return rp.Fail(i, "registering the request failed: %v", err)
-			}
-			if _, err := pa.ReadMessage(); err != nil {
-				return rp.Fail(i, "peer could not read the request: %v", err)
-			}
-		}
+		// (3) wire: written by one endpoint, decoded by the peer as the type the protocol defines - once through
+		// ReadMessage + DecodeMessage, once through the typed wait ExpectPacket
 		if cs.P.K == "scs" && (cs.P.Hi<<16|cs.P.Lo) == 0 {
 			return rp.Result{OK: true} // chunk size 0 is not a size anybody may announce on the wire
 		}
-		if err := pa.WritePacket(cs.P.Build(c.Seed), 1); err != nil {
-			return rp.Fail(i, "%s: WritePacket failed: %v", cs.P.K, err)
-		}
-		m, err := pb.ReadMessage()
-		if err != nil {
-			return rp.Fail(i, "%s: peer ReadMessage failed: %v", cs.P.K, err)
-		}
-		if int(m.MessageType) != cs.Mtype || !bytes.Equal(m.Payload, want) {
-			return rp.Fail(i, "%s: message on the wire: type %d, payload %s", cs.P.K, m.MessageType, rp.FirstDiff(m.Payload, want))
-		}
-		dec, err := pb.DecodeMessage(m)
-		if err != nil {
-			return rp.Fail(i, "%s: peer DecodeMessage failed: %v", cs.P.K, err)
-		}
-		if tn := typeName(dec); tn != cs.Kind {
-			return rp.Fail(i, "%s arrives as %s, the protocol defines %s", cs.P.K, tn, cs.Kind)
-		}
-		re, err := dec.MarshalBinary()
-		if err != nil || !bytes.Equal(re, want) {
-			return rp.Fail(i, "%s: decoded packet re-marshals differently: %v %s", cs.P.K, err, rp.FirstDiff(re, want))
+		a, b := transport.NewPair()
+		pa, pb := rtmp.NewProtocol(a), rtmp.NewProtocol(b)
+		for _, path := range []string{"DecodeMessage", "ExpectPacket"} {
+			if req := request(cs.Pending, cs.P.Tid); req != nil {
+				if err := pb.WritePacket(req, 0); err != nil {
+					return rp.Fail(i, "registering the request failed: %v", err)
+				}
+				if _, err := pa.ReadMessage(); err != nil {
+					return rp.Fail(i, "peer could not read the request: %v", err)
+				}
+			}
+			if err := pa.WritePacket(cs.P.Build(c.Seed), 1); err != nil {
+				return rp.Fail(i, "%s: WritePacket failed: %v", cs.P.K, err)
+			}
+			var m *rtmp.Message
+			var dec rtmp.Packet
+			how := "sent and decoded by the peer's " + path
+			if path == "DecodeMessage" {
+				if m, err = pb.ReadMessage(); err != nil {
+					return rp.Fail(i, "%s: peer ReadMessage failed: %v", cs.P.K, err)
+				}
+				if dec, err = pb.DecodeMessage(m); err != nil {
+					return failed(fmt.Errorf("%s: peer DecodeMessage failed: %v", cs.P.K, err))
+				}
+			} else {
+				b.Out.CloseWrite() // nothing else will come: a wait that skips the packet ends instead of blocking
+				a.Out.CloseWrite()
+				target := newWaitTarget(cs.Kind)
+				if m, err = pb.ExpectPacket(target); err != nil {
+					return failed(fmt.Errorf("%s: the peer's ExpectPacket(%s) did not return it: %v", cs.P.K, cs.Kind, err))
+				}
+				dec, _ = reflect.ValueOf(target).Elem().Interface().(rtmp.Packet)
+			}
+			if int(m.MessageType) != cs.Mtype || !bytes.Equal(m.Payload, want) {
+				return rp.Fail(i, "%s: message on the wire: type %d, payload %s", cs.P.K, m.MessageType, rp.FirstDiff(m.Payload, want))
+			}
+			if tn := typeName(dec); tn != cs.Kind {
+				return rp.Fail(i, "%s, %s: arrives as %s, the protocol defines %s", cs.P.K, how, tn, cs.Kind)
+			}
+			if err := decoded(&cs, how, dec, want, c.Seed); err != nil {
+				return failed(err)
+			}
 		}
 		return rp.Result{OK: true}
 	}
